@@ -411,7 +411,8 @@ class Overlay:
             if not (toks[j + 1].kind == "id" and toks[j + 2].text == "|"):
                 lost(fr, f"closure #{n} of {sel} is not of the form |ident| ..."); return
             if "param" in opts and toks[j + 1].text != opts["param"]:
-                lost(fr, f"closure #{n} of {sel}: parameter is `{toks[j + 1].text}`, contract expects `{opts['param']}`"); return
+                # the contract names the parameter `param`; the source calls it something else: follow the source
+                rspec = re.sub(r"\b" + re.escape(opts["param"]) + r"\b", toks[j + 1].text, rspec)
             k = j + 3
             if toks[k].text == "{":
                 lost(fr, f"closure #{n} of {sel} already has a block body"); return
